@@ -9,3 +9,5 @@ def run(ctx, rep):
     cond.rule_gscon_table(mod, rep)
     from ..rules import misc
     misc.rule_min_identity(mod, rep, which=('growth',))
+    from ..rules import more
+    more.rule_trsv_loops(mod, rep)
